@@ -114,8 +114,8 @@ theorem single_fork_bystander (c : Cl) (S : List Ev) (l : List Ev) (nx : Nat)
     (hg : c.hasGroup = true) (hr : 1 ≤ c.retention) (hsec : SecretsOK c.g) (hm : NoForkSnapshot c)
     (hS : Siblings c S) (hl : ∀ e ∈ l, e ∈ S) (hne : l ≠ []) :
     ∃ w ∈ l, (∀ e ∈ l, e = w ∨ klt (key w) (key e) = true) ∧
-      (l.foldl (fun c e => (deliver c e nx).1) c).g.path = c.g.path ++ [w.n] ∧
-      (l.foldl (fun c e => (deliver c e nx).1) c).g = childG c w ∧
+      (l.foldl (fun c e => (deliver c e nx).1) c).g.path = c.g.path ++ [w.cipher] ∧
+      wc (l.foldl (fun c e => (deliver c e nx).1) c).g [] = wc (childG c w) [] ∧
       (getRec (l.foldl (fun c e => (deliver c e nx).1) c) w.n).map (·.state) = some 2 ∧
       ∀ e ∈ l, e ≠ w → ∃ r, getRec (l.foldl (fun c e => (deliver c e nx).1) c) e.n = some r ∧ (r.state = 3 ∨ r.state = 4) :=
   C01Fork.single_fork_bystander c S l nx hg hr hsec hm hS hl hne
@@ -127,8 +127,8 @@ theorem single_fork_committer (c : Cl) (o : Ev) (S : List Ev) (l : List Ev) (nx 
     (hd : ∀ e ∈ S, e.n ≠ o.n ∧ (e.ts, e.idnum) ≠ (o.ts, o.idnum))
     (hl : ∀ e ∈ l, e ∈ o :: S) (hne : l ≠ []) :
     ∃ w ∈ l, (∀ e ∈ l, e = w ∨ klt (key w) (key e) = true) ∧
-      (l.foldl (fun c e => (deliver c e nx).1) c).g.path = c.g.path ++ [w.n] ∧
-      (l.foldl (fun c e => (deliver c e nx).1) c).g = childG c w ∧
+      (l.foldl (fun c e => (deliver c e nx).1) c).g.path = c.g.path ++ [w.cipher] ∧
+      wc (l.foldl (fun c e => (deliver c e nx).1) c).g [] = wc (childG c w) [] ∧
       (l.foldl (fun c e => (deliver c e nx).1) c).g.pending = none ∧
       (getRec (l.foldl (fun c e => (deliver c e nx).1) c) w.n).map (·.state) = some 2 ∧
       ∀ e ∈ l, e ≠ w → e ≠ o → ∃ r, getRec (l.foldl (fun c e => (deliver c e nx).1) c) e.n = some r ∧ (r.state = 3 ∨ r.state = 4) :=
@@ -140,6 +140,27 @@ theorem secrets_follow_path (id : Nat) (p : Bool) (r : Nat) (ms as : List Nat) (
     C01Fork.NoForkSnapshot (ops.foldl C08.cstep (initCl id p r ms as name)) ∧
     ∀ s ∈ (ops.foldl C08.cstep (initCl id p r ms as name)).mgr, C01Fork.SecretsOK s.saved :=
   C01Fork.secrets_follow_path id p r ms as name ops
+
+open MdkVerif.Fork MdkVerif.Props.C01Fork in
+/-- staging + publishing a commit establishes the committer theorem's hypotheses -/
+theorem stage_own_commit (c : Cl) (n ts idn : Nat) (b : Body) (na : Bool) (o : Ev)
+    (hts : ts ≠ 0) (hsec : SecretsOK c.g) (hm : NoForkSnapshot c)
+    (h : (stageCommit c n ts idn b na).2 = .ev o) :
+    OwnCommit (stageCommit c n ts idn b na).1 o ∧ SecretsOK (stageCommit c n ts idn b na).1.g ∧
+    NoForkSnapshot (stageCommit c n ts idn b na).1 ∧ (stageCommit c n ts idn b na).1.g.path = c.g.path :=
+  C01Fork.stage_own_commit c n ts idn b na o hts hsec hm h
+
+open MdkVerif.Fork MdkVerif.Props.C01Fork in
+/-- the bystander theorem for every client state reachable by any history of API calls -/
+theorem single_fork_reachable (id : Nat) (p : Bool) (r : Nat) (ms as : List Nat) (name : Nat) (ops : List C08.COp)
+    (S l : List Ev) (nx : Nat)
+    (hg : (ops.foldl C08.cstep (initCl id p r ms as name)).hasGroup = true)
+    (hr : 1 ≤ (ops.foldl C08.cstep (initCl id p r ms as name)).retention)
+    (hS : Siblings (ops.foldl C08.cstep (initCl id p r ms as name)) S) (hl : ∀ e ∈ l, e ∈ S) (hne : l ≠ []) :
+    ∃ w ∈ l, (∀ e ∈ l, e = w ∨ klt (key w) (key e) = true) ∧
+      (l.foldl (fun c e => (deliver c e nx).1) (ops.foldl C08.cstep (initCl id p r ms as name))).g.path =
+        (ops.foldl C08.cstep (initCl id p r ms as name)).g.path ++ [w.cipher] :=
+  C01Fork.single_fork_reachable id p r ms as name ops S l nx hg hr hS hl hne
 
 /-- the excluded configuration of the bystander theorem: retention 0 -/
 theorem single_fork_needs_retention : ¬ C01Fork.single_fork_bystander_full := C01Fork.single_fork_bystander_full_false
